@@ -17,7 +17,11 @@ Transforms == << [m |-> <<1, 0, 0, 1, 0, 0>>, mden |-> 1], [m |-> <<1, 0, 0, 1, 
                  [m |-> <<2, 0, 0, 2, 1, 1>>, mden |-> 4], [m |-> <<0, 1, -1, 0, 5, 0>>, mden |-> 1],
                  [m |-> <<-1, 0, 0, 1, 0, 0>>, mden |-> 1], [m |-> <<1, 1, 0, 1, 0, 0>>, mden |-> 2],
                  [m |-> <<3, 0, 0, 5, 0, 1>>, mden |-> 8], [m |-> <<0, 0, 0, 0, 1, 1>>, mden |-> 1],
-                 [m |-> <<3, 4, -4, 3, 0, 0>>, mden |-> 5], [m |-> <<1, 2, 3, 4, 5, 6>>, mden |-> 3] >>
+                 [m |-> <<3, 4, -4, 3, 0, 0>>, mden |-> 5], [m |-> <<1, 2, 3, 4, 5, 6>>, mden |-> 3],
+                 \* unit diagonal with off-diagonal terms (pure shears), unit m11 only, unit m22 only
+                 [m |-> <<2, 0, 1, 2, 0, 0>>, mden |-> 2], [m |-> <<1, 3, 0, 1, 2, -1>>, mden |-> 1],
+                 [m |-> <<1, 1, 1, 1, 0, 0>>, mden |-> 1], [m |-> <<1, 0, 0, 3, 1, 0>>, mden |-> 1],
+                 [m |-> <<2, 1, 0, 1, 0, 0>>, mden |-> 1] >>
 Dirs == << <<1, 0, 1>>, <<0, 1, 1>>, <<-1, 0, 1>>, <<0, -1, 1>>, <<4, 3, 5>>, <<3, 4, 5>>, <<-3, 4, 5>>, <<-4, -3, 5>>,
            <<12, -5, 13>>, <<5, 12, 13>>, <<-12, 5, 13>>, <<3, -4, 5>> >>
 SweepDirs == << <<1, 0, 1>>, <<4, 3, 5>>, <<3, 4, 5>>, <<12, 5, 13>>, <<5, 12, 13>>, <<24, 7, 25>> >>
@@ -29,7 +33,7 @@ Next == /\ KIND = "builder" /\ Len(calls) < LEN
         /\ a1' = (a1 * 31 + Len(calls) * 7 + Len(ToString(calls'))) % 1009
         /\ UNCHANGED <<a2, a3, a4>>
 BuilderScen == [id |-> ToString(<<"gb", a1, Len(calls)>>), fam |-> "builder", den |-> 2, calls |-> calls,
-                transform |-> Transforms[(a1 % Len(Transforms)) + 1], set_evenodd |-> a1 % 3 = 0]
+                transform |-> Transforms[(a1 % Len(Transforms)) + 1], set_evenodd |-> (a1 \div Len(Transforms)) % 3 = 0]
 ArcScen ==
   LET sign == IF a4 % 2 = 0 THEN 1 ELSE -1
       r == Radii[((a4 - 1) \div 2) + 1]
